@@ -630,6 +630,40 @@ def _text_table(e, fi, prog):
     return None
 
 
+def _fold_alternatives(e, fi, prog):
+    """texts an expression can take when exactly one Name in it is bound once to `A if c else B` with foldable arms"""
+    cands = [n for n in ast.walk(e) if isinstance(n, ast.Name) and isinstance(single_def(fi, n.id), ast.IfExp)]
+    ie_nodes = [n for n in ast.walk(e) if isinstance(n, ast.IfExp)]
+    if len({n.id for n in cands}) + len(ie_nodes) != 1:
+        return None
+    if cands:
+        name = cands[0].id
+        ie = single_def(fi, name)
+    else:
+        name, ie = None, ie_nodes[0]
+    out = []
+    for arm in (ie.body, ie.orelse):
+        class R(ast.NodeTransformer):
+            def visit_Name(self, n):
+                return ast.copy_location(arm, n) if name is not None and n.id == name else n
+
+            def visit_IfExp(self, n):
+                return arm if n is ie else self.generic_visit(n)
+
+        e2 = R().visit(ast.parse(ast.unparse(e), mode="eval").body) if name is not None else None
+        if name is None:
+            class R2(ast.NodeTransformer):
+                def visit_IfExp(self, n):
+                    return ast.parse(ast.unparse(arm), mode="eval").body
+            e2 = R2().visit(ast.parse(ast.unparse(e), mode="eval").body)
+        ast.fix_missing_locations(e2)
+        t = fold_str(e2, fi, prog)
+        if t is None:
+            return None
+        out.append(t)
+    return out
+
+
 def _sql_sites(prog, mod_name):
     mi = prog.module(mod_name)
     sites = []
@@ -656,6 +690,18 @@ def _sql_sites(prog, mod_name):
                     site_.from_table = True
                     sites.append(site_)
                 continue
+            if text is None:
+                # text with one conditional part (x = "A" if c else "B"; f"... {x} ..."): one site per alternative
+                alts2 = _fold_alternatives(call.args[0], fi, prog)
+                if alts2:
+                    for t_ in alts2:
+                        st_ = parse_sql(t_)
+                        site_ = SqlSite(fi, call, st_, None, f.attr == "executemany")
+                        b_ = call.args[1] if len(call.args) > 1 else None
+                        site_.bindings = list(b_.elts) if isinstance(b_, (ast.List, ast.Tuple)) and not any(isinstance(x, ast.Starred) for x in b_.elts) else ([] if b_ is None else None)
+                        site_.from_table = True
+                        sites.append(site_)
+                    continue
             if text is None:
                 pre = _const_prefix(call.args[0])
                 if pre and pre.split() and pre.split()[0].upper() in ("SAVEPOINT", "RELEASE", "ROLLBACK", "BEGIN", "COMMIT", "END"):
